@@ -178,9 +178,13 @@ func buildScratch() (*scratch, error) {
 }
 
 var shimPlan = map[string][]string{
-	"pkg/io":      {"os"},
-	"pkg/exec":    {"os", "math/rand"},
-	"stdlib/file": {"os"},
+	"pkg/io":      {"os", "time", "math/rand"},
+	"pkg/exec":    {"os", "math/rand", "time"},
+	"pkg/runtime": {"os", "math/rand", "time"},
+	"pkg/value":   {"os", "math/rand", "time"},
+	"pkg/common":  {"os", "math/rand", "time"},
+	"stdlib/file": {"os", "time", "math/rand"},
+	"stdlib/json": {"os", "time", "math/rand"},
 	"pkg/server":  {"os", "os/exec", "net", "time", "log", "os/signal", "syscall", "math/rand"},
 }
 
